@@ -35,6 +35,7 @@ type Contract struct {
 	Key         string
 	Pkg         string // package path the contract was declared in ("" for extern)
 	Trusted     bool
+	AsmReturns  []*AsmRet // assembly stubs: result values established by a dataflow over the assembly text
 	TrustedWhy  string
 	Inline      bool
 	ParamNames  []string
@@ -53,6 +54,14 @@ type Contract struct {
 	Splits      []*SExpr
 	NoGrow      map[int]bool // append calls (by ordinal) that are proved to fit the capacity; only the in-place result is modelled
 	Asserts     []*AssertAt
+}
+
+// AsmRet: the named result of an assembly function only ever receives one of the listed constants.
+type AsmRet struct {
+	Result  string
+	Allowed []int64
+	Except  []int // jumps (by ordinal) into the storing block that are infeasible under the stub's precondition (listed as assumptions)
+	Line    int
 }
 
 // AssertAt is an assertion anchored just before the K-th call (in block order) of the named builtin or function.
@@ -309,6 +318,34 @@ func (cs *Contracts) LoadFile(path, pkg string) error {
 			if cur != nil {
 				cur.Trusted = true
 				cur.TrustedWhy = strings.Trim(rest, "\"")
+			}
+		case "asmreturns":
+			// asmreturns RESULT in c1 c2 ... [except K ...]   (K: ordinal, in text order, of a jump to the block that stores RESULT)
+			if cur != nil {
+				fs := strings.Fields(rest)
+				if len(fs) < 3 || fs[1] != "in" {
+					cs.errf(path, it.line, "bad asmreturns clause")
+					continue
+				}
+				ar := &AsmRet{Result: fs[0], Line: it.line}
+				exc := false
+				for _, f := range fs[2:] {
+					if f == "except" {
+						exc = true
+						continue
+					}
+					v, err := strconv.ParseInt(f, 10, 64)
+					if err != nil {
+						cs.errf(path, it.line, "bad asmreturns constant %q", f)
+						continue
+					}
+					if exc {
+						ar.Except = append(ar.Except, int(v))
+					} else {
+						ar.Allowed = append(ar.Allowed, v)
+					}
+				}
+				cur.AsmReturns = append(cur.AsmReturns, ar)
 			}
 		case "inline":
 			if cur != nil {
